@@ -545,6 +545,7 @@ class Rewriter:
     # R19 small std idioms without a Verus counterpart (each listed in DESIGN 3.2)
     def r19_misc(self, t):
         subs = [
+            (r"\s+as\s+Option<\s*[A-Za-z_][A-Za-z_0-9]*\s*<\s*'_\s*>\s*>", "", "R24 identity cast `as Option<Iter<'_>>` (same type, only spells out a type alias) dropped"),
             (r"\b([A-Za-z_][A-Za-z_0-9]*)\s*\.\s*to_owned\s*\(\s*\)", r"vstd::slice::slice_to_vec(\1)", "R19a slice.to_owned() -> vstd::slice::slice_to_vec(slice)"),
         ]
         for pat, repl, what in subs:
